@@ -136,7 +136,9 @@ func parseContractFile(path, pkgDir string) ([]*FuncContract, error) {
 		if !strings.HasPrefix(line, "//@") {
 			continue
 		}
-		line = strings.TrimSpace(strings.TrimPrefix(line, "//@"))
+		raw := strings.TrimPrefix(line, "//@")
+		indent := len(raw) - len(strings.TrimLeft(raw, " \t"))
+		line = strings.TrimSpace(raw)
 		if i := strings.Index(line, " -- "); i >= 0 {
 			line = strings.TrimSpace(line[:i])
 		}
@@ -203,7 +205,7 @@ func parseContractFile(path, pkgDir string) ([]*FuncContract, error) {
 			kw = "invariant" // site assertions are stored like invariants of the pseudo-loop "@<site>"
 			pendKind, pend, pendLine = kw, rest, ln
 		case "requires", "ensures", "invariant", "decreases":
-			if kw == "requires" || kw == "ensures" {
+			if kw == "requires" || kw == "ensures" || (kw == "decreases" && indent <= 3) {
 				curLoop = ""
 			}
 			pendKind, pend, pendLine = kw, rest, ln
